@@ -18,6 +18,8 @@ MODULES, THEOREMS = get('C19')
 STATE_POOLS = [
     lambda i: 's%d' % i, lambda i: (i, 'x'), lambda i: float(i) + 0.5, lambda i: frozenset([i, -1]),
     lambda i: [7, 'str', (1, 2), 2.5, frozenset([1]), -3][i % 6],
+    # one state that is not equal to itself (found by identity in dicts and sets), and Python-equal-looking neighbours
+    lambda i: [float('nan'), 'nan', (float('inf'),), -0.0, 10 ** 20][i % 5],
 ]
 ODD_LABELS = [3, (1, 2), None, 'not', 'or', 'A', 'E', 'X', 'U', 'true', '[E(p)]', '[A(X(p))]', '[E(X(p))]', 'fair',
               'fair0', 'p q', '', '(', '[E((p U q))]', 'AX', 'not p']
